@@ -16,10 +16,11 @@ variable {N : Type}
 /-- The configuration of the repaired code. -/
 def RunCfg.repaired (cfg : RunCfg) : RunCfg := { cfg with panics := false }
 
-/-- `r'` (repaired) simulates `r`. -/
+/-- `r'` (repaired) simulates `r`: a panic at a FIXED site becomes the runtime error
+`site.fallback`, everything else (a panic at a residual site included) is unchanged. -/
 def Sim {α : Type} (r r' : Res N α) : Prop :=
   match r with
-  | .panic s st => ∃ sp, r' = .err s.fallback sp st
+  | .panic s st => (s.fixed = true → ∃ sp, r' = .err s.fallback sp st) ∧ (s.fixed = false → r' = .panic s st)
   | _ => r' = r
 
 theorem Sim.refl_ok {α : Type} (a : α) (st : State N) : Sim (Res.ok a st) (Res.ok a st) := rfl
@@ -32,15 +33,28 @@ theorem Sim.bind {α β : Type} {r r' : Res N α} {k k' : α → State N → Res
   cases r with
   | ok a st => simp only [Sim] at h; subst h; exact hk a st
   | err kd sp st => simp only [Sim] at h; subst h; exact rfl
-  | panic s st => obtain ⟨sp, h⟩ := h; subst h; exact ⟨sp, rfl⟩
+  | panic s st =>
+    obtain ⟨h1, h2⟩ := h
+    cases hf : s.fixed with
+    | true =>
+      obtain ⟨sp, h⟩ := h1 hf
+      subst h
+      exact ⟨fun _ => ⟨sp, rfl⟩, fun hc => (by rw [hf] at hc; cases hc)⟩
+    | false =>
+      have h := h2 hf
+      subst h
+      exact ⟨fun hc => (by rw [hf] at hc; cases hc), fun _ => rfl⟩
   | fuel => simp only [Sim] at h; subst h; exact rfl
 
 theorem sim_trap {α : Type} (cfg : RunCfg) (site : PanicSite) (sp : Span) (st : State N) :
     Sim (trap cfg site sp st : Res N α) (trap cfg.repaired site sp st) := by
   unfold NaijaVerif.Eval.trap RunCfg.repaired
-  cases cfg.panics with
-  | true => exact ⟨sp, rfl⟩
-  | false => exact rfl
+  cases hf : site.fixed with
+  | false => simp [Sim, hf]
+  | true =>
+    cases cfg.panics with
+    | true => simp [Sim, hf]
+    | false => simp [Sim]
 
 theorem sim_ofFault {α : Type} (cfg : RunCfg) (flt : Fault) (sp : Span) (st : State N) :
     Sim (Res.ofFault cfg flt sp st : Res N α) (Res.ofFault cfg.repaired flt sp st) := by
